@@ -96,3 +96,24 @@ def probed_keyed(k=0, v=0):
         h("middle", inv, (k, v))
         h("exit", inv, (k, v))
     return [k, v]
+
+
+ATTEMPTS = {}  # invocation id -> number of body executions so far (stepping / controlled runs are in-process)
+
+
+def flaky(fail_times=1, x=0):
+    """raises RetryError on the first `fail_times` executions of this invocation, then returns x"""
+    from pynenc.exceptions import RetryError
+    inv = _cur_inv_id()
+    h = BODY_HOOK[0]
+    n = ATTEMPTS.get(inv, 0) + 1
+    ATTEMPTS[inv] = n
+    if h:
+        h("enter", inv, n)
+    try:
+        if n <= fail_times:
+            raise RetryError(f"attempt {n}")
+        return x
+    finally:
+        if h:
+            h("exit", inv, n)
